@@ -6,6 +6,7 @@
 import Lean.Data.Json
 import TsRsVerif.Model.Text
 import TsRsVerif.Model.Path
+import TsRsVerif.Model.Case
 open Lean TsRs
 
 def gs (j : Json) (k : String) : Str :=
@@ -36,8 +37,61 @@ def resStr : Except ExportErr Str → Json
 
 def panicJ : Json := Json.mkObj [("panic", Json.bool true)]
 
-def handle (j : Json) : Json :=
+/-- driver state: the Unicode table printed by Rust's own `char` methods for the working alphabet -/
+structure CharRow where
+  cp : Nat
+  upper : Bool
+  alnum : Bool
+  numeric : Bool
+  up : Str
+  lo : Str
+
+def lookup (t : List CharRow) (c : Char) : Option CharRow := t.find? fun r => r.cp = c.toNat
+
+def opsOf (t : List CharRow) : CharOps where
+  isUpper := fun c => match lookup t c with | some r => r.upper | none => Case.asciiOps.isUpper c
+  isAlnum := fun c => match lookup t c with | some r => r.alnum | none => Case.asciiOps.isAlnum c
+  isNumeric := fun c => match lookup t c with | some r => r.numeric | none => Case.asciiOps.isNumeric c
+  strLower := fun s => (s.map fun c => match lookup t c with | some r => r.lo | none => [Text.asciiLower c]).flatten
+  strUpper := fun s => (s.map fun c => match lookup t c with | some r => r.up | none => [Text.asciiUpper c]).flatten
+
+def parseChars (j : Json) : List CharRow :=
+  match j.getObjVal? "table" with
+  | .ok (Json.arr rows) => rows.toList.filterMap fun r =>
+    match r with
+    | Json.arr a =>
+      if a.size = 6 then
+        match a[0]!.getNat?, a[1]!.getBool?, a[2]!.getBool?, a[3]!.getBool?, a[4]!.getStr?, a[5]!.getStr? with
+        | .ok cp, .ok u, .ok al, .ok nu, .ok up, .ok lo => some ⟨cp, u, al, nu, up.toList, lo.toList⟩
+        | _, _, _, _, _, _ => none
+      else none
+    | _ => none
+  | _ => []
+
+def resJ : Res Str → Json
+  | .ok s => Json.mkObj [("ok", S s)]
+  | .panic _ => Json.mkObj [("panic", Json.bool true)]
+
+def handle (ops : CharOps) (j : Json) : Json :=
   match String.ofList (gs j "op") with
+  | "inflect_field" =>
+    match Case.ruleOfName (String.ofList (gs j "rule")) with
+    | some r => Json.mkObj [("ok", S (Case.applyToField ops r (gs j "s")))]
+    | none => Json.mkObj [("unknown_rule", S (gs j "rule"))]
+  | "inflect_variant" =>
+    match Case.ruleOfName (String.ofList (gs j "rule")) with
+    | some r => Json.mkObj [("ok", S (Case.applyToVariant ops r (gs j "s")))]
+    | none => Json.mkObj [("unknown_rule", S (gs j "rule"))]
+  | "serde_field" =>
+    match Case.ruleOfName (String.ofList (gs j "rule")) with
+    | some r => resJ (Case.serdeField ops r (gs j "s"))
+    | none => Json.null
+  | "serde_variant" =>
+    match Case.ruleOfName (String.ofList (gs j "rule")) with
+    | some r => resJ (Case.serdeVariant ops r (gs j "s"))
+    | none => Json.null
+  | "field_name" => Json.mkObj [("ok", S (Case.rawNameToTsField ops (gs j "s")))]
+  | "ts_ident" => Json.mkObj [("ok", S (Case.toTsIdent (gs j "s")))]
   | "absolute" => resStr (Path.absolute (gs j "cwd") (gs j "p"))
   | "diff_paths" => resStr (Path.diffPaths (gs j "cwd") (gs j "path") (gs j "base"))
   | "import_path" =>
@@ -57,16 +111,24 @@ def handle (j : Json) : Json :=
         | none => Json.null)]
   | op => Json.mkObj [("unknown_op", Json.str op)]
 
-partial def loop (h : IO.FS.Stream) (out : IO.FS.Stream) : IO Unit := do
+partial def loop (h : IO.FS.Stream) (out : IO.FS.Stream) (tbl : List CharRow) : IO Unit := do
   let line ← h.getLine
   if line.isEmpty then return ()
   let t := line.trimAscii.toString
-  if t.isEmpty then loop h out else
+  if t.isEmpty then loop h out tbl else
   match Json.parse t with
-  | .error e => out.putStrLn (Json.mkObj [("bad_json", Json.str e)]).compress
-  | .ok j => out.putStrLn (handle j).compress
-  loop h out
+  | .error e =>
+    out.putStrLn (Json.mkObj [("bad_json", Json.str e)]).compress
+    loop h out tbl
+  | .ok j =>
+    if gs j "op" = "set_chars".toList then
+      let tbl' := parseChars j
+      out.putStrLn (Json.mkObj [("ok", Json.num tbl'.length)]).compress
+      loop h out tbl'
+    else
+      out.putStrLn (handle (opsOf tbl) j).compress
+      loop h out tbl
 
 def main : IO Unit := do
   let out ← IO.getStdout
-  loop (← IO.getStdin) out
+  loop (← IO.getStdin) out []
